@@ -170,6 +170,7 @@ def main(prop, modname, level="other", argv=None, extra_assumptions=(), trusted_
     ap = argparse.ArgumentParser()
     ap.add_argument("--tier", default=os.environ.get("VERIF_TIER", "quick"))
     ap.add_argument("--replay", default=None)
+    ap.add_argument("--replay-batch", default=None, help=argparse.SUPPRESS)
     ap.add_argument("--jobs", default=None, help="comma separated job-name filter")
     ap.add_argument("-j", type=int, default=int(os.environ.get("VERIF_PROCS", "16")))
     ap.add_argument("--budget", type=float, default=0)
@@ -178,6 +179,22 @@ def main(prop, modname, level="other", argv=None, extra_assumptions=(), trusted_
     seed = int(os.environ.get("VERIF_SEED", "0") or 0)
     mod = importlib.import_module(modname)
 
+    if a.replay_batch:
+        with open(a.replay_batch) as f:
+            batch = json.load(f)
+        alljobs = {j.name: j for t in ("thorough", "quick") for j in mod.jobs(t)}
+        for i, (jn, label, inp) in enumerate(batch):
+            try:
+                msg = alljobs[jn].replay(unjson(inp), label)
+                print("REPLAY-RESULT %d %s" % (i, json.dumps(dict(msg=msg))))
+            except BaseException as e:
+                print("REPLAY-RESULT %d %s" % (i, json.dumps(dict(error=repr(e)))))
+        return 0
+    if a.replay and os.environ.get("SYMRUN_PLAIN") != "1":
+        # replays always run in a fresh interpreter on the un-instrumented code (no import hook, no shadows)
+        import subprocess
+        env = dict(os.environ, SYMRUN_PLAIN="1")
+        return subprocess.call([sys.executable, "-m", modname, "--replay", a.replay], env=env)
     if a.replay:
         with open(a.replay) as f:
             r = json.load(f)
@@ -230,22 +247,47 @@ def main(prop, modname, level="other", argv=None, extra_assumptions=(), trusted_
     known_hit = {}
     nonrepro = []
     os.makedirs(os.path.join(VERIF, "replays"), exist_ok=True)
+    cands = []
     for (jn, label, inp) in raw_viol:
         job = jobmap[jn]
-        cinp = unjson(inp)
         try:
-            key = job.key(cinp, label)
-        except Exception as e:
+            key = job.key(unjson(inp), label)
+        except Exception:
             key = "%s:%s" % (jn, label)
         if key in seen_keys:
             continue
         seen_keys.add(key)
+        cands.append((jn, label, inp, key))
+        if len(cands) >= 40:
+            break
+    replies = {}
+    if cands:
+        import subprocess
+        bpath = os.path.join(VERIF, "replays", "%s-batch-%d.json" % (prop, os.getpid()))
+        with open(bpath, "w") as f:
+            json.dump([(jn, label, inp) for (jn, label, inp, key) in cands], f)
+        env = dict(os.environ, SYMRUN_PLAIN="1")
         try:
-            msg = job.replay(cinp, label)
-        except BaseException as e:
-            msg = None
-            nonrepro.append("%s/%s: replay raised %r" % (jn, label, e))
+            pr = subprocess.run([sys.executable, "-m", modname, "--replay-batch", bpath], env=env,
+                                capture_output=True, text=True, timeout=600)
+            for line in pr.stdout.splitlines():
+                if line.startswith("REPLAY-RESULT "):
+                    _, idx, js = line.split(" ", 2)
+                    replies[int(idx)] = json.loads(js)
+            if pr.returncode != 0:
+                nonrepro.append("replay subprocess failed: %s" % pr.stderr[-400:])
+        except subprocess.TimeoutExpired:
+            nonrepro.append("replay subprocess timed out")
+        os.unlink(bpath)
+    for i, (jn, label, inp, key) in enumerate(cands):
+        rep = replies.get(i)
+        if rep is None:
+            nonrepro.append("%s/%s: no replay result" % (jn, label))
             continue
+        if "error" in rep:
+            nonrepro.append("%s/%s: replay raised %s" % (jn, label, rep["error"]))
+            continue
+        msg = rep["msg"]
         if not msg:
             nonrepro.append("%s/%s: counterexample did not reproduce on the real code: %s" % (jn, label, json.dumps(inp)[:300]))
             continue
